@@ -173,6 +173,179 @@ theorem C12_trim_quoted (v : Bytes) (hd : InDomain v) : trimQuotesAndSpace (34 :
         exact ⟨hz'.1, hz'.2.1, hz'.2.2.1⟩
       rw [dropWhile_cut_of_head hcz, ← hr, List.reverse_reverse]
 
+/-! ### a whole record: the tokenizer over a list of fields -/
+
+/-- a value as the kernel writes it after `key=`: plain (a number, a word, upper-case hex — no
+quote, no white space) or a double-quoted string without a quote inside that does not end in a
+backslash. -/
+inductive EncOk : Bytes → Prop
+  | plain (v : Bytes) : v ≠ [] → (∀ b ∈ v, isPlainValByte b = true) → EncOk v
+  | quoted (v : Bytes) : (34 : Nat) ∉ v → (∀ b, v.getLast? = some b → b ≠ 92) → EncOk (34 :: (v ++ [34]))
+
+/-- `k1=e1 k2=e2 …` -/
+def render : List (Bytes × Bytes) → Bytes
+  | [] => []
+  | [(k, e)] => k ++ 61 :: e
+  | (k, e) :: rest => k ++ 61 :: (e ++ 32 :: render rest)
+
+theorem takeWhile_append_stop {p : Nat → Bool} (a tail : Bytes) (ha : ∀ b ∈ a, p b = true)
+    (ht : tail = [] ∨ ∃ c t, tail = c :: t ∧ p c = false) : (a ++ tail).takeWhile p = a := by
+  induction a with
+  | nil =>
+    rcases ht with rfl | ⟨c, t, rfl, hc⟩
+    · rfl
+    · simp [List.takeWhile_cons, hc]
+  | cons x xs ih =>
+    simp only [List.cons_append, List.takeWhile_cons, ha x (by simp), if_true]
+    rw [ih (fun b hb => ha b (by simp [hb]))]
+
+/-- the value matcher consumes exactly the encoded value when it is followed by nothing or by a
+space. -/
+theorem matchValue_enc (e tail : Bytes) (he : EncOk e) (ht : tail = [] ∨ ∃ t, tail = 32 :: t) :
+    matchValue (e ++ tail) = some e.length := by
+  cases he with
+  | plain _ hne hp =>
+    cases e with
+    | nil => exact absurd rfl hne
+    | cons b bs =>
+      have hb := hp b (by simp)
+      have htw : ((b :: bs) ++ tail).takeWhile isPlainValByte = b :: bs := by
+        apply takeWhile_append_stop _ _ hp
+        rcases ht with rfl | ⟨t, rfl⟩
+        · exact Or.inl rfl
+        · exact Or.inr ⟨32, t, rfl, by decide⟩
+      simp only [List.cons_append] at htw ⊢
+      simp only [matchValue, hb, if_true, htw]
+  | quoted v hq hl =>
+    have := matchQuoted_safe v tail hq hl
+    have e1 : (34 :: (v ++ [34])) ++ tail = 34 :: (v ++ 34 :: tail) := by simp
+    rw [e1]
+    simp [matchValue, isPlainValByte, this]
+
+/-- Tokenizer over a whole record: a record rendered as `k1=e1 k2=e2 …` — keys made of key bytes,
+values as the kernel encodes them — is cut into exactly those (key, encoded value) pairs, in
+order: no field is lost, merged, split or truncated, whatever the values contain. -/
+theorem C12_tokenize (fs : List (Bytes × Bytes))
+    (hk : ∀ p ∈ fs, p.1 ≠ [] ∧ ∀ b ∈ p.1, isKeyByte b = true) (he : ∀ p ∈ fs, EncOk p.2)
+    (fuel : Nat) (hf : (render fs).length + 1 ≤ fuel) : kvMatches fuel (render fs) = fs := by
+  induction fs generalizing fuel with
+  | nil => cases fuel <;> rfl
+  | cons p rest ih =>
+    obtain ⟨k, e⟩ := p
+    obtain ⟨hkne, hkb⟩ := hk (k, e) (by simp)
+    have hee := he (k, e) (by simp)
+    have hene : e ≠ [] := by
+      cases hee with
+      | plain _ h _ => exact h
+      | quoted v _ _ => simp
+    -- the text is k ++ '=' :: (e ++ tail) with tail = [] or ' ' :: render rest
+    obtain ⟨tail, hr, ht⟩ : ∃ tail, render ((k, e) :: rest) = k ++ 61 :: (e ++ tail) ∧
+        ((tail = [] ∧ rest = []) ∨ (tail = 32 :: render rest ∧ rest ≠ [])) := by
+      cases rest with
+      | nil => exact ⟨[], by simp [render], Or.inl ⟨rfl, rfl⟩⟩
+      | cons q qs => exact ⟨32 :: render (q :: qs), by simp [render], Or.inr ⟨rfl, by simp⟩⟩
+    rw [hr] at hf ⊢
+    obtain ⟨kb, kt, rfl⟩ : ∃ kb kt, k = kb :: kt := by
+      cases k with
+      | nil => exact absurd rfl hkne
+      | cons kb kt => exact ⟨kb, kt, rfl⟩
+    obtain ⟨fuel', rfl⟩ : ∃ f', fuel = f' + 1 := ⟨fuel - 1, by omega⟩
+    have hkey : ((kb :: kt) ++ 61 :: (e ++ tail)).takeWhile isKeyByte = kb :: kt :=
+      takeWhile_append_stop _ _ hkb (Or.inr ⟨61, _, rfl, by decide⟩)
+    have hmv : matchValue (e ++ tail) = some e.length :=
+      matchValue_enc e tail hee (by rcases ht with ⟨h, _⟩ | ⟨h, _⟩ <;> simp [h])
+    simp only [List.cons_append] at hkey hf ⊢
+    simp only [kvMatches, hkb kb (by simp), if_true, hkey]
+    have hdrop : (kb :: (kt ++ 61 :: (e ++ tail))).drop (kb :: kt).length = 61 :: (e ++ tail) := by
+      have : kb :: (kt ++ 61 :: (e ++ tail)) = (kb :: kt) ++ 61 :: (e ++ tail) := by simp
+      rw [this, List.drop_left' rfl]
+    rw [hdrop]
+    simp only [hmv, List.take_left' rfl, List.drop_left' rfl]
+    congr 1
+    rcases ht with ⟨rfl, rfl⟩ | ⟨rfl, hne⟩
+    · cases fuel' <;> rfl
+    · -- one step over the separating space, then the induction hypothesis
+      have hlen : (render rest).length + 2 ≤ fuel' := by
+        simp only [List.length_cons, List.length_append] at hf
+        have : 0 < e.length := List.length_pos_iff.mpr hene
+        omega
+      obtain ⟨f2, rfl⟩ : ∃ f2, fuel' = f2 + 1 := ⟨fuel' - 1, by omega⟩
+      have hsp : isKeyByte 32 = false := by decide
+      simp only [kvMatches, hsp, Bool.false_eq_true, if_false]
+      exact ih (fun q hq => hk q (by simp [hq])) (fun q hq => he q (by simp [hq])) f2 (by omega)
+
+/-- non-vacuity: the hypotheses hold for the fields of `a=42 exe="/x"`, and the theorem then gives
+the two tokens. -/
+example : kvMatches 40 (render [([97], [52, 50]), ([101, 120, 101], 34 :: ([47, 120] ++ [34]))]) =
+    [([97], [52, 50]), ([101, 120, 101], 34 :: ([47, 120] ++ [34]))] := by
+  apply C12_tokenize
+  · intro p hp
+    simp only [List.mem_cons, List.mem_nil_iff, or_false] at hp
+    rcases hp with rfl | rfl <;> exact ⟨by simp, by decide⟩
+  · intro p hp
+    simp only [List.mem_cons, List.mem_nil_iff, or_false] at hp
+    rcases hp with rfl | rfl
+    · exact .plain _ (by simp) (by decide)
+    · exact .quoted _ (by decide) (by intro b hb; simp at hb; omega)
+  · simp [render]
+
+/-- what Data() starts from for one token: the raw token and its value with quotes trimmed -/
+def fieldOf (p : Bytes × Bytes) : Bytes × Field := (p.1, { orig := p.2, value := trimQuotesAndSpace p.2 })
+
+theorem fmAdd_fresh (fm : FieldMap) (k : Bytes) (f : Field) (h : ∀ q ∈ fm, q.1 ≠ k) : fmAdd fm k f = fm ++ [(k, f)] := by
+  unfold fmAdd
+  have : fm.any (fun p => p.1 == k) = false := by
+    rw [List.any_eq_false]
+    intro q hq
+    simpa using h q hq
+  simp [this]
+
+/-- Field extraction over a whole record: for a record `k1=e1 k2=e2 …` with distinct keys, none
+of them `msg`, whose values are not placeholders, extractKeyValuePairs yields exactly one entry
+per field, in order, holding the raw token and the value with its quotes trimmed — nothing is
+lost, merged or invented, whatever bytes the (kernel-encoded) values contain. -/
+theorem C12_record_fields (fs : List (Bytes × Bytes))
+    (hk : ∀ p ∈ fs, p.1 ≠ [] ∧ ∀ b ∈ p.1, isKeyByte b = true) (he : ∀ p ∈ fs, EncOk p.2)
+    (hnd : (fs.map (·.1)).Nodup) (hmsg : ∀ p ∈ fs, (p.1 == keyMsg) = false)
+    (hph : ∀ p ∈ fs, isPlaceholder (trimQuotesAndSpace p.2) = false) (fuel : Nat) :
+    extractKV (fuel + 1) (render fs) = fs.map fieldOf := by
+  unfold extractKV
+  rw [C12_tokenize fs hk he _ (Nat.le_refl _)]
+  -- the fold appends one fresh entry per field
+  have key : ∀ (todo done : List (Bytes × Bytes)), (∀ p ∈ todo, (p.1 == keyMsg) = false) →
+      (∀ p ∈ todo, isPlaceholder (trimQuotesAndSpace p.2) = false) → ((done ++ todo).map (·.1)).Nodup →
+      todo.foldl (fun (data : FieldMap) (m : Bytes × Bytes) =>
+        let value := trimQuotesAndSpace m.2
+        if isPlaceholder value then data
+        else if m.1 == keyMsg then (extractKV fuel value).foldl (fun d p => fmAdd d p.1 p.2) data
+        else fmAdd data m.1 { orig := m.2, value := value }) (done.map fieldOf) = (done ++ todo).map fieldOf := by
+    intro todo
+    induction todo with
+    | nil => intro done _ _ _; simp
+    | cons m ms ih =>
+      intro done hm hp hn
+      simp only [List.foldl_cons]
+      have h1 := hm m (by simp)
+      have h2 := hp m (by simp)
+      simp only [h2, Bool.false_eq_true, if_false, h1]
+      have hfresh : ∀ q ∈ done.map fieldOf, q.1 ≠ m.1 := by
+        intro q hq
+        obtain ⟨d, hd, rfl⟩ := List.mem_map.mp hq
+        simp only [fieldOf]
+        intro heq
+        simp only [List.map_append, List.map_cons] at hn
+        have := (List.nodup_append.mp hn).2.2 d.1 (List.mem_map.mpr ⟨d, hd, rfl⟩) m.1 (by simp)
+        exact this heq
+      rw [fmAdd_fresh _ _ _ hfresh]
+      have e : done.map fieldOf ++ [(m.1, { orig := m.2, value := trimQuotesAndSpace m.2 })] = (done ++ [m]).map fieldOf := by
+        simp [fieldOf]
+      rw [e]
+      have := ih (done ++ [m]) (fun p hp' => hm p (by simp [hp'])) (fun p hp' => hp p (by simp [hp']))
+        (by simpa [List.append_assoc] using hn)
+      simpa [List.append_assoc] using this
+  have := key fs [] hmsg hph (by simpa using hnd)
+  simpa using this
+
 /-! ### placeholders, derived fields -/
 
 /-- Exactly the placeholder values are dropped. -/
